@@ -9,7 +9,6 @@ import (
 	"grog/internal/console"
 	"os"
 	"path/filepath"
-	"strconv"
 	"strings"
 	"sync"
 	"syscall"
@@ -18,9 +17,16 @@ import (
 
 // WorkspaceLocker ensures that only one grog build is running per host by
 // managing a lock file in the workspace root directory.
+//
+// The lock itself is an exclusive flock(2) on the lock file: the kernel grants
+// it to one process at a time and releases it when the holder exits or dies, so
+// there is no window between "create" and "write the PID" and no stale lock to
+// clean up. The PID inside the file is only used for the waiting message.
 type WorkspaceLocker struct {
 	lockFilePath string
-	printOnce    sync.Once
+	// lockFile is kept open (and flock'ed) while we hold the lock
+	lockFile  *os.File
+	printOnce sync.Once
 }
 
 // NewWorkspaceLocker creates a locker using the global configuration.
@@ -37,39 +43,41 @@ func (wl *WorkspaceLocker) Lock(ctx context.Context) error {
 
 	for {
 		logger.Debugf("Attempting to acquire workspace lock at %s", wl.lockFilePath)
-		file, err := os.OpenFile(wl.lockFilePath, os.O_RDWR|os.O_CREATE|os.O_EXCL, 0644)
-		if err == nil || errors.Is(err, os.ErrNotExist) {
-			_, writeErr := file.Write(pidStr)
-			file.Close()
-			if writeErr != nil {
-				os.Remove(wl.lockFilePath)
-				return writeErr
-			}
-			return nil
-		}
-		if !errors.Is(err, os.ErrExist) {
+		file, err := os.OpenFile(wl.lockFilePath, os.O_RDWR|os.O_CREATE, 0644)
+		if err != nil {
 			return err
 		}
 
-		// Read the lock file which contains the PID of the other process
-		data, readError := os.ReadFile(wl.lockFilePath)
-		if readError != nil {
-			_ = os.Remove(wl.lockFilePath)
-			continue
+		flockErr := syscall.Flock(int(file.Fd()), syscall.LOCK_EX|syscall.LOCK_NB)
+		if flockErr == nil {
+			// The previous holder removes the lock file before it releases the flock.
+			// If that happened between our open and our flock we now own a file that
+			// nobody else can see anymore: only the file that is still reachable
+			// under the lock path counts.
+			if !isCurrentLockFile(file, wl.lockFilePath) {
+				file.Close()
+				continue
+			}
+			if writeErr := writePid(file, pidStr); writeErr != nil {
+				file.Close()
+				return writeErr
+			}
+			wl.lockFile = file
+			return nil
 		}
-		otherPid, conversionError := strconv.Atoi(strings.TrimSpace(string(data)))
-		if conversionError != nil {
-			_ = os.Remove(wl.lockFilePath)
-			continue
+		if !errors.Is(flockErr, syscall.EWOULDBLOCK) {
+			file.Close()
+			return flockErr
 		}
-		if !processRunning(otherPid) {
-			_ = os.Remove(wl.lockFilePath)
-			continue
-		}
+
+		// Another process holds the lock: its PID is only read for the message
+		data, _ := os.ReadFile(wl.lockFilePath)
+		file.Close()
+		otherPid := strings.TrimSpace(string(data))
 
 		if waitPrinted == false {
 			green := color.New(color.FgGreen).SprintFunc()
-			fmt.Printf("%s: Another grog build (PID %d) is running. Waiting..", green("INFO"), otherPid)
+			fmt.Printf("%s: Another grog build (PID %s) is running. Waiting..", green("INFO"), otherPid)
 			waitPrinted = true
 			// Ensure that we add a newline when we printed anything
 			defer fmt.Println()
@@ -86,17 +94,33 @@ func (wl *WorkspaceLocker) Lock(ctx context.Context) error {
 
 // Unlock releases the workspace lock.
 func (wl *WorkspaceLocker) Unlock() error {
-	return os.Remove(wl.lockFilePath)
+	// Remove the file first and release the flock (by closing) second, see Lock
+	err := os.Remove(wl.lockFilePath)
+	if wl.lockFile != nil {
+		wl.lockFile.Close()
+		wl.lockFile = nil
+	}
+	return err
 }
 
-func processRunning(pid int) bool {
-	if pid <= 0 {
-		return false
-	}
-	p, err := os.FindProcess(pid)
+// isCurrentLockFile reports whether the open file is still the one that the lock path points to.
+func isCurrentLockFile(file *os.File, lockFilePath string) bool {
+	openInfo, err := file.Stat()
 	if err != nil {
 		return false
 	}
-	err = p.Signal(syscall.Signal(0))
-	return err == nil || errors.Is(err, syscall.EPERM)
+	pathInfo, err := os.Stat(lockFilePath)
+	if err != nil {
+		return false
+	}
+	return os.SameFile(openInfo, pathInfo)
+}
+
+// writePid replaces the content of the lock file with our PID.
+func writePid(file *os.File, pidStr []byte) error {
+	if err := file.Truncate(0); err != nil {
+		return err
+	}
+	_, err := file.WriteAt(pidStr, 0)
+	return err
 }
